@@ -186,6 +186,15 @@ Section WithHash.
                      (map (fun e => hash_file_base fs (fst e)) (members fs d true)))
     end.
 
+  (** Listing versus hashing walk.  Iterating a Dir (and Dir.copy_to, staging, iter_subvalues) lists
+      its members with the recursive glob: [dir_listing].  Dir._calc_hash asks the filesystem for the
+      member hashes (iter_file_hashes); on the local filesystem that is the inherited generic method,
+      which iterates [Dir(path)] -- the same listing ([WalkListing], what translate/tr_file.py must
+      find).  [dir_hash_with walk] is the Dir hash for an arbitrary hashing walk. *)
+  Definition dir_listing (fs : fsys) (d : dpath) : list (fpath * fnode) := members fs d true.
+  Definition dir_hash_with (walk : fsys -> dpath -> list (fpath * fnode)) (bn : bytes) (fs : fsys) (d : dpath) : hash :=
+    set_struct bn (render_d d) (map (fun e => hash_file_base fs (fst e)) (walk fs d)).
+
   Definition calc_target (v : variant) (f : fam) (fs : fsys) (t : target) : option hash :=
     match t with
     | TFile p => hash_file v f fs p
@@ -625,6 +634,10 @@ Definition class_table (v : variant) : list class_row := [
   mkRow "ContentDir" "Dir" "ContentDir" "ContentFileClasses"
         (if contentdir_by_content v then CkDirMembers else CkInherit) VkInherit
 ]%string.
+
+(** how LocalFileSystem obtains iter_file_hashes: only the inherited generic method is recognised *)
+Inductive hash_walk := WalkListing.     (* FileSystem.iter_file_hashes: `for file in Dir(path): yield file.hash` *)
+Definition local_hash_walk : hash_walk := WalkListing.
 
 (** where update_hash() is called in the mutating methods (true = the call is there) *)
 Record update_sites := mkSites {
